@@ -22,6 +22,7 @@ import (
 
 type concExec struct {
 	obs   [][]pool.Obs
+	post  []pool.Obs
 	dump  pool.Dump
 	sched sched.Result
 }
@@ -35,6 +36,14 @@ func runScenario(env *pool.Env, sc pool.Scenario, ch sched.Chooser) (*concExec, 
 	plans := sc.Plan(im)
 	ex := &concExec{obs: make([][]pool.Obs, len(sc.Threads))}
 	bodies := make([]func(), len(sc.Threads))
+	runOne := func(to pool.PlannedOp) pool.Obs {
+		var o pool.Obs
+		p, v, site := fw.Try(func() { o = to.Run(im) })
+		if p {
+			o.Panic, o.PanicV = site, fmt.Sprint(v)
+		}
+		return o
+	}
 	for t := range sc.Threads {
 		t := t
 		bodies[t] = func() {
@@ -59,6 +68,9 @@ func runScenario(env *pool.Env, sc pool.Scenario, ch sched.Chooser) (*concExec, 
 		for range bodies {
 			<-done
 		}
+	}
+	for _, to := range plans[len(sc.Threads)] { // sequential epilogue
+		ex.post = append(ex.post, runOne(to))
 	}
 	ex.dump = im.Dump()
 	var flat []pool.Op
@@ -106,6 +118,18 @@ func linearizable(u *pool.Universe, sc pool.Scenario, ex *concExec) (bool, strin
 		}
 		if done {
 			var last pool.Op
+			if len(sc.Post) > 0 {
+				r = r.Clone()
+				for i, op := range sc.Post {
+					if f := r.Step(op, ex.post[i]); len(f) > 0 {
+						if len(why) < 6 {
+							why = append(why, fmt.Sprintf("%v then (afterwards) %s: %s", order, op.String(u), f[0].Msg))
+						}
+						return false
+					}
+					last = op
+				}
+			}
 			if f := r.Compare(last, ex.dump); len(f) > 0 {
 				if len(why) < 6 {
 					why = append(why, fmt.Sprintf("%v: final state: %s", order, f[0].Msg))
@@ -158,6 +182,11 @@ func concPart(c *fw.Ctx, only *concCase) {
 	}
 	for si, sc := range scs {
 		if only == nil && !c.Mine(int64(si)) {
+			continue
+		}
+		if sc.HasTick() && !pool.TickAvailable() {
+			c.Note("conc_"+sc.Name, "skipped: the checkout under test has no (*TxPool).VerifAgeTick hook")
+			c.Cap("age-tick scenarios skipped: hook VerifAgeTick missing")
 			continue
 		}
 		if only != nil {
